@@ -218,6 +218,14 @@ def run(run):
     disc = [n for c in find_calls(A, ens, "disconnect") for n in g.nodes_of(c)]
     inits = [c for c in find_calls(A, ens, "initialize_device")]
     run.require(bool(inits), "ensure_connection no longer calls initialize_device")
+    # "re-opens the connection": the bring-up it runs begins by connecting - connect() precedes every other use of the dongle in initialize_device
+    gi_ = A.cfg(init, V2)
+    dcalls = [c for c in A.own_nodes(init) if isinstance(c, ast.Call) and isinstance(c.func, ast.Attribute) and norm(c.func.value) == "self.hsm2dongle"]
+    conn = [c for c in dcalls if c.func.attr == "connect"]
+    okc_ = len(conn) >= 1 and all(any(gi_.dominates(a, b) for c0 in conn for a in gi_.nodes_of(c0)) for c1 in dcalls if c1 not in conn for b in gi_.nodes_of(c1))
+    run.check("R2", okc_, "initialize_device connects before anything else", key="initialize_device|connect-first", where=init.loc(),
+              message="initialize_device uses the dongle without (first) calling self.hsm2dongle.connect(): after a link failure the connection closed by ensure_connection is "
+                      "never re-opened and every later request fails")
     for c in inits:
         cs = [x.fn for x in A.resolve_call(c, ens, V2) if x.fn is not None]
         run.check("R2", cs == [init], "re-bring-up is the start-up initialize_device",
@@ -402,6 +410,14 @@ def run(run):
         else:
             run.fail("R3", f"{wfn.qualname}|_comm_issue|non-constant", wfn.loc(tgt),
                      f"{wfn.qualname} assigns a non-constant to the comm-issue flag")
+    # report_comm_issue() is how the legacy protocol object (and helpers) raise the flag: it must do so, on the v2 object
+    rci = P.method(V2, "report_comm_issue")
+    sets_ = [n for n in A.own_nodes(rci) if isinstance(n, ast.Assign) and any(norm(t) == "self._comm_issue" for t in n.targets)
+             and isinstance(n.value, ast.Constant) and n.value.value is True]
+    grc = A.cfg(rci, V2)
+    run.check("R3", bool(sets_) and all(any(grc.dominates(x, grc.exit) for x in grc.nodes_of(n)) for n in sets_), "report_comm_issue() sets the flag on every path",
+              key="report_comm_issue|sets-flag", where=rci.loc(), message="HSM2ProtocolLedger.report_comm_issue can return without setting `self._comm_issue = True`: a link failure "
+              "reported through it (legacy protocol) is not followed by a reconnection")
     rep_calls = 0
     for f_ in P.all_functions:
         for c_ in find_calls(A, f_, "report_comm_issue"):
